@@ -173,12 +173,32 @@ def run(ctx, config):
                "read and write decrement differ beyond the read<->write renaming at element %d" % diff)
     rules.append(r3)
     rules.append(rule_clip_eval(P))
+    rules.append(rule_leave_group(P, ctx, config))
     return rules
 
 
-def rule_clip_eval(P):
+def rule_leave_group(P, ctx, config):
+    """leaving a group without lifting the group's suspension is only right when the bufferevent is being destroyed: anywhere else the BEV_SUSPEND_BW_GROUP
+    flag would outlive the membership and nothing would ever clear it (the new group only un-suspends when IT was suspended)"""
+    r = Rule("C22-leave-group", "K2", "a bufferevent leaves a rate-limit group with its group suspension lifted, except on destruction", floor=2)
+    P2 = ctx.prog(UNITS + ["bufferevent"], config)
+    for f in P2.all_fns:
+        for el in f.calls("bufferevent_remove_from_rate_limit_group_internal_"):
+            a = strip(el.e[2][1])
+            keep = is_e(a, "int") and a[1] == 0
+            # destruction: the same function releases the rate_limiting record afterwards
+            frees = [x for x in f.calls() if callee_name(x.e) == "event_mm_free_" and any(is_e(q, "fld") and q[2] == "bufferevent_private.rate_limiting" for q in walk(x.e[2][0]))]
+            destroying = bool(frees) and f.exit_reachable_avoiding(el.pos(), lambda x: x in frees) is None
+            r.inst((f.name, el.n), {"fn": f.name, "site": el.where(), "unsuspend_argument": show(a), "destroys_rate_limiting_afterwards": destroying})
+            if (keep or not is_e(a, "int")) and not destroying:
+                r.bad("K2:%s:leaves-group-still-suspended" % f.name, el.where(), f.name,
+                      "the bufferevent leaves its group with unsuspend=%s outside destruction: a suspension imposed by the old group stays on the bufferevent and no later refill lifts it (no progress although budget is available)" % show(a))
+    return r
+
+
+def rule_clip_eval(P, rid="C22-reconfigure"):
     """re-configuration never forgives debt: bucket levels are only ever clipped DOWN to the new burst (typed evaluation: signed/unsigned conversions matter)"""
-    r = Rule("C22-reconfigure", "K6", "set_cfg / re-initialisation clip a bucket to min(level, new maximum): a negative level (debt) survives reconfiguration", floor=40)
+    r = Rule(rid, "K6", "set_cfg / re-initialisation clip a bucket to min(level, new maximum): a negative level (debt) survives reconfiguration", floor=40)
     MAXV = (1 << 63) - 1
     sites = []
     g = P.fn("bufferevent_rate_limit_group_set_cfg")
